@@ -183,7 +183,7 @@ static void pair_run(uint64_t idx)
 }
 VF_SUITE(path_pairs, pair_count, pair_run)
 
-static uint64_t single_count() { return enum_cases(); }
+static uint64_t single_count() { return enum_cases(false); }
 static void single_run(uint64_t idx)
 {
     uint64_t n = 0, k = 0;
@@ -195,7 +195,7 @@ static void single_run(uint64_t idx)
         check_single(s);
         n++;
         k += !s.empty();
-    });
+    }, false);
     vf::count_bulk(n, k);
 }
 VF_SUITE(path_single, single_count, single_run)
